@@ -42,6 +42,14 @@ def make_adder_check(w, rep):
             raise AnalysisError(f"{fn.qualname} (used as point addition in a scalar-multiplication ladder): {e}")
         bad = [o for o in obs if not o.ok]
         return (not bad, "; ".join(f"{o.combo} | {o.case}: {o.detail}" for o in bad[:2])[:500] or f"{len(obs)} cases")
+
+    def generic(fn):
+        """fn agrees with the chord rule on two generic finite points (x1 ≠ x2)"""
+        obs, _n = check_function(w, lambda it, a: it.call_func(fn, [a[0], a[1]], {}), rep, rep, [("finite", "finite")], cases_add,
+                                 native_fields=False)
+        g = [o for o in obs if "generic" in o.case]
+        return bool(g) and all(o.ok for o in g)
+    adder_check.generic = generic
     return adder_check
 
 
